@@ -331,19 +331,41 @@ theorem intText_negSucc (n : Nat) : intText (Int.negSucc n) = '-' :: Nat.toDigit
   rw [Nat.toList_repr]
   rfl
 
-theorem pyInt_digits (ds : Str) (hd : ∀ c ∈ ds, c.isDigit = true) (hne : ds ≠ []) :
-    pyInt ds = some (digitsVal ds : Int) := by
+/-- `asciiDigit` leaves ASCII text alone -/
+theorem map_asciiDigit_ascii (s : Str) (h : ∀ c ∈ s, c.toNat < 128) : s.map asciiDigit = s := by
+  induction s with
+  | nil => rfl
+  | cons c t ih =>
+    rw [List.map_cons, ih (fun x hx => h x (by simp [hx]))]
+    have := h c (by simp)
+    simp [asciiDigit, this]
+
+theorem isDigit_ascii {c : Char} (h : c.isDigit = true) : c.toNat < 128 := by
+  simp only [Char.isDigit, Bool.and_eq_true, decide_eq_true_eq] at h
+  have h1 : ∀ a b : Char, a ≤ b → a.toNat ≤ b.toNat := fun a b hab => hab
+  have u := h1 _ _ h.2
+  simp at u
+  omega
+
+theorem pyIntAscii_digits (ds : Str) (hd : ∀ c ∈ ds, c.isDigit = true) (hne : ds ≠ []) :
+    pyIntAscii ds = some (digitsVal ds : Int) := by
   cases ds with
   | nil => exact absurd rfl hne
   | cons c t =>
     have hc := hd c (by simp)
     have h1 : c ≠ '-' := by intro e; subst e; simp [Char.isDigit] at hc
     have h2 : c ≠ '+' := by intro e; subst e; simp [Char.isDigit] at hc
-    unfold pyInt
+    unfold pyIntAscii
     split
     · rename_i r heq; simp only [List.cons.injEq] at heq; exact absurd heq.1 h1
     · rename_i r heq; simp only [List.cons.injEq] at heq; exact absurd heq.1 h2
     · rw [intBody_digits _ false hd (Or.inl (by simp))]; rfl
+
+theorem pyInt_digits (ds : Str) (hd : ∀ c ∈ ds, c.isDigit = true) (hne : ds ≠ []) :
+    pyInt ds = some (digitsVal ds : Int) := by
+  unfold pyInt
+  rw [map_asciiDigit_ascii ds (fun c hc => isDigit_ascii (hd c hc))]
+  exact pyIntAscii_digits ds hd hne
 
 theorem pyInt_intText (i : Int) : pyInt (intText i) = some i := by
   cases i with
@@ -353,6 +375,12 @@ theorem pyInt_intText (i : Int) : pyInt (intText i) = some i := by
   | negSucc n =>
     rw [intText_negSucc]
     unfold pyInt
+    rw [map_asciiDigit_ascii _ (by
+      intro c hc
+      rcases List.mem_cons.mp hc with rfl | hc
+      · decide
+      · exact isDigit_ascii (toDigits_digits (n + 1) c hc))]
+    unfold pyIntAscii
     simp only
     rw [intBody_digits _ false (toDigits_digits (n + 1)) (Or.inl Nat.toDigits_ne_nil)]
     simp [digitsVal, Int.negSucc_eq]
